@@ -138,6 +138,14 @@ fn gen_cfg(bytes: &[u8], jumps: bool) -> Cfg {
 /// step through the top-level statements REPL-style and check the stack height
 fn check_statements(ctx: &mut Ctx, section: &str, prog: &[S]) -> Vec<Violation> {
     let src_all = render(prog);
+    // memory requests (huge repetition counts) are outside every property: consult the reference first
+    if src_all.contains(" * ") {
+        let rr = reference(prog, 300_000);
+        if memory_risk(&rr, &src_all) {
+            ctx.excluded(1);
+            return vec![];
+        }
+    }
     guard(section, "src", &src_all);
     let pending = jump_with_pending(prog);
     let odd = has_odd_branch(prog);
